@@ -116,14 +116,33 @@ def rand_fam(rng, d, kind=None):
     if kind == "corner": return Fam(kind, [(rng.choice([0.9, 0.8, 0.95]),) for _ in range(d)])
 
 
-def rand_region(rng, d, plain=False, rev=0.0, far=0.0):
-    """{first limits..., second limits...}: widths 1e-3..1e3 (log-uniform), offset; rev = probability of an axis with descending limits (the
-    integral then changes sign with every such axis); far = probability of an axis that lies 1e3..1e9 widths away from the origin (at most 1e6)"""
+WIDTH_CORNERS = ("small", "large", "small-but-one", "large-but-one", "alternating")
+
+
+def corner_widths(rng, d, corner):
+    """widths of all axes taken from the ends of the quantified range 1e-3..1e3 (the volume is then 1e-18..1e18 in six dimensions, where
+    log-uniform widths give 1e-4..1e4 almost always): all at the small end, all at the large end, all but one, alternating ends"""
+    small = lambda: rng.choice([1e-3, 1e-3 * rng.uniform(1, 3)])
+    large = lambda: rng.choice([1e3, 1e3 / rng.uniform(1, 3)])
+    if corner == "small": w = [small() for _ in range(d)]
+    elif corner == "large": w = [large() for _ in range(d)]
+    elif corner == "small-but-one": w = [small() for _ in range(d)]; w[rng.randrange(d)] = 10 ** rng.uniform(-3, 0)
+    elif corner == "large-but-one": w = [large() for _ in range(d)]; w[rng.randrange(d)] = 10 ** rng.uniform(0, 3)
+    else:
+        k = rng.randrange(2); w = [small() if (j + k) % 2 else large() for j in range(d)]
+    return w
+
+
+def rand_region(rng, d, plain=False, rev=0.0, far=0.0, corner=None):
+    """{first limits..., second limits...}: widths 1e-3..1e3 (log-uniform; corner: all from the ends of that range, see corner_widths), offset;
+    rev = probability of an axis with descending limits (the integral then changes sign with every such axis); far = probability of an axis that
+    lies 1e3..1e9 widths away from the origin (at most 1e6)"""
     lo, hi = [], []
-    for _ in range(d):
+    cw = corner_widths(rng, d, corner) if corner else None
+    for j in range(d):
         if plain: a, w = 0.0, 1.0
         else:
-            w = 10 ** rng.uniform(-3, 3)
+            w = cw[j] if cw else 10 ** rng.uniform(-3, 3)
             a = rng.choice([0.0, 1.0, -1.0, rng.uniform(-10, 10), rng.uniform(-1e3, 1e3), -w / 2])
             if far and rng.random() < far: a = rng.choice([-1.0, 1.0]) * min(w * 10 ** rng.uniform(3, 9), 1e6)
         b = a + w
@@ -224,6 +243,52 @@ def front_case(rng, op, method, lims, p, tags=()):
 
 
 
+# ---------------------------------------------------------------- uses of the sampling facility (Statistics) the integrators draw from
+def rand_ranges(rng, k, region=None):
+    """limits (a, b), a < b, of k successive draws Sample_Uniform(gen, a, b): the default limits (0, 1) of the integrators; limits that share
+    one end with those of the draw before (or with (0, 1)) and differ in the other, at distances from 1e-16 relative to 1e3; the two draws of an
+    isotropic direction, (0, 2 pi) and (-1, 1); symmetric and offset intervals of widths 1e-3..1e3; the limits of an axis of the region"""
+    out = []; prev = (0.0, 1.0)
+    while len(out) < k:
+        kind = rng.choice(["default", "share-upper", "share-upper", "share-lower", "share-lower", "isotropic", "symmetric", "offset", "axis", "same"])
+        base = prev if rng.random() < 0.5 else (0.0, 1.0)
+        step = lambda x: max(abs(x), 1.0) * 10 ** rng.uniform(-16, 3)
+        new = []
+        if kind == "default": new = [(0.0, 1.0)]
+        elif kind == "same": new = [prev]
+        elif kind == "share-upper":
+            a = rng.choice([-base[1], base[1] - step(base[1]), base[0] - step(base[0]), -1.0, 0.0, 0.5 * (base[0] + base[1])])
+            new = [(a, base[1])]
+        elif kind == "share-lower":
+            b = rng.choice([base[0] + step(base[0]), base[1] + step(base[1]), 1.0, 2 * math.pi, 0.5 * (base[0] + base[1])])
+            new = [(base[0], b)]
+        elif kind == "isotropic": new = [(0.0, 2 * math.pi), (-1.0, 1.0)][::rng.choice([1, 1, -1])]
+        elif kind == "symmetric": w = 10 ** rng.uniform(-3, 3); new = [(-w, w)]
+        elif kind == "offset": w = 10 ** rng.uniform(-3, 3); a = rng.choice([1.0, -1.0, rng.uniform(-10, 10), rng.uniform(-1e3, 1e3)]); new = [(a, a + w)]
+        elif kind == "axis" and region:
+            d = len(region) // 2; j = rng.randrange(d); new = [(min(region[j], region[j + d]), max(region[j], region[j + d]))]
+        for a, b in new:
+            if a < b and math.isfinite(b - a) and len(out) < k: out.append((a, b)); prev = (a, b)
+    return out
+
+
+def draws_text(rng, region=None, kind=None):
+    """an element of a history that is not an integration: su (Sample_Uniform with limits), sg (Sample_Gauss), rs (Rejection_Sampling)"""
+    kind = kind or rng.choice(["su", "su", "su", "su", "sg", "rs"])
+    seed = rng.randrange(2 ** 32)
+    if kind == "su":
+        k = rng.randint(1, 6); rs = rand_ranges(rng, k, region)
+        return f"su {seed} {k} " + " ".join(f"{hx(a)} {hx(b)}" for a, b in rs)
+    if kind == "sg": return f"sg {seed} {rng.randint(1, 4)} {hx(rng.uniform(-3, 3))} {hx(10 ** rng.uniform(-2, 2))}"
+    (a, b), = rand_ranges(rng, 1, region)
+    return f"rs {seed} {rng.randint(1, 3)} {hx(a)} {hx(b)}"
+
+
+def obs_ann(method, ncall, region, fam):
+    """what the predicates need to know of the observed call of a history"""
+    return f" # obs {method} {ncall} {len(region) // 2} " + " ".join(hx(x) for x in region) + " ; " + fam.ann()
+
+
 # ---------------------------------------------------------------- call budgets
 def vegas_layout(ncall, d):
     """(ng, npg, nd, evaluations per iteration) of Integrate_MC_Vegas for this budget and dimension (Integration.cpp, the init <= 2 block)"""
@@ -288,6 +353,29 @@ def generate(rng, tier):
                     if rng.random() < 0.1: ncall = rng.choice([60, 59, 75, 100, 150, 600])      # Miser: around MNBS and the first split
                     seed = rng.randrange(2 ** 32)
                     cs.append(Case("mc " + call_text(method, seed, ncall, region, fam) + " # " + fam.ann(), ("mc", method, f"dim{d}", kind)))
+    # the corners of the range of widths: every axis at the small end (1e-3), every axis at the large end (1e3), all but one, alternating; in six
+    # dimensions the volume is 1e-18 .. 1e18 (constants exact relative to volume * constant, smooth integrands within six standard errors)
+    for rep in range(3 if big else 1):
+        for method in MC:
+            for d in range(1, 7):
+                for corner in WIDTH_CORNERS:
+                    if d == 1 and corner not in ("small", "large"): continue
+                    for kind in ("const", rng.choice(["sepexp", "gauss", "poly"])):
+                        region = rand_region(rng, d, rev=0.1, corner=corner); fam = rand_fam(rng, d, kind)
+                        cs.append(Case("mc " + call_text(method, rng.randrange(2 ** 32), rng.choice(budgets[:4]), region, fam) + " # " + fam.ann(),
+                                       ("mc", method, f"dim{d}", kind, "width-corner", "width-corner-" + corner)))
+    # the sampling facility the integrators draw from (Sample_Uniform of Statistics), used with limits of its own: successive draws from one generator
+    for _ in range(200 if big else 40):
+        k = rng.randint(2, 8); rs = rand_ranges(rng, k, rand_region(rng, 2))
+        cs.append(Case(f"draws {rng.randrange(2 ** 32)} {k} " + " ".join(f"{hx(a)} {hx(b)}" for a, b in rs), ("draws",)))
+    # ... and by the integrand of an integration under way, at every evaluation (an integrand that samples)
+    for rep in range(4 if big else 1):
+        for method in MC:
+            for d in (1, 2, 3, 5):
+                region = rand_region(rng, d, rev=0.15); fam = rand_fam(rng, d, rng.choice(["const", "sepexp", "gauss", "poly"]))
+                k = rng.randint(1, 3); rs = rand_ranges(rng, k, region)
+                cs.append(Case(f"mcd {k} " + " ".join(f"{hx(a)} {hx(b)}" for a, b in rs) + " " + call_text(method, rng.randrange(2 ** 32), rng.choice([1000, 1500, 2000]), region, fam)
+                               + " # " + fam.ann(), ("mc", method, f"dim{d}", fam.kind, "integrand-draws")))
     # descending limits on 1, 2, ..., all axes (the integral changes sign with every such axis; the sample points stay between the limits),
     # constants and smooth integrands
     for rep in range(3 if big else 1):
@@ -381,7 +469,8 @@ def generate(rng, tier):
             if k == nh and kind == "corner" and not (method == "Miser" and d <= 3): kind = rng.choice(["sepexp", "gauss", "poly", "const"])
             # Miser: with a flat pre-sample no dimension qualifies for the bisection and the counter iran picks it: the calls on which that counter shows
             if k == nh and method == "Miser" and rng.random() < 0.5: d = rng.choice([2, 3]); kind = "corner"
-            region = rand_region(rng, d, plain=(kind == "corner" and rng.random() < 0.5), rev=0.15); fam = rand_fam(rng, d, kind)
+            region = rand_region(rng, d, plain=(kind == "corner" and rng.random() < 0.5), rev=0.15, corner=(rng.choice(WIDTH_CORNERS) if rng.random() < 0.1 else None))
+            fam = rand_fam(rng, d, kind)
             ncall = rng.choice([200, 300, 500, 700, 1000, 2000]) if rng.random() < 0.7 else structured_budget(rng, 200, 4500 if big else 2500, d)
             if ih < nlong and k < nh: ncall = rng.choice([60, 100, 128, 200, 300, 500])
             calls.append([d, method, rng.randrange(2 ** 32), ncall, region, fam, 0, -1])
@@ -416,7 +505,28 @@ def generate(rng, tier):
         if obs[7] >= 0: tags.append("shared-region-object")
         if with_throw: tags.append("with-throwing-call")
         if nh == 0: tags.append("repeated")
-        cs.append(Case(f"hist {nh} " + " ".join(texts), tuple(tags)))
+        # uses of the sampling facility by the caller in between the integrations (often right before the observed call)
+        hist_texts = texts[:-1]
+        if rng.random() < 0.5:
+            for _ in range(rng.randint(1, 3)):
+                at = len(hist_texts) if rng.random() < 0.5 else rng.randint(0, len(hist_texts))
+                hist_texts.insert(at, draws_text(rng, obs[4]))
+            tags.append("with-draws")
+        cs.append(Case(f"hist {len(hist_texts)} " + " ".join(hist_texts + texts[-1:]) + obs_ann(obs[1], obs[3], obs[4], obs[5]), tuple(tags)))
+    # the shortest histories through the sampling facility: draws only; an integration then draws; draws then an integration
+    for rep in range(4 if big else 1):
+        for method in MC:
+            for shape in ("d", "d", "dd", "cd", "dc", "dcd"):
+                d = rng.randint(1, 6); ncall = rng.choice([500, 1000, 2000])
+                region = rand_region(rng, d, rev=0.15); fam = rand_fam(rng, d, rng.choice(["const", "sepexp", "gauss", "poly"]))
+                els = []
+                for ch in shape:
+                    if ch == "d": els.append(draws_text(rng, region, kind=("su" if rng.random() < 0.8 else None)))
+                    else:
+                        dh = rng.randint(1, 4)
+                        els.append(call_text(rng.choice(MC), rng.randrange(2 ** 32), rng.choice([200, 500, 1000]), rand_region(rng, dh), rand_fam(rng, dh, rng.choice(["sepexp", "gauss", "poly"]))))
+                cs.append(Case(f"hist {len(els)} " + " ".join(els) + " " + call_text(method, rng.randrange(2 ** 32), ncall, region, fam) + obs_ann(method, ncall, region, fam),
+                               ("hist", method, "same-dim", "with-draws", "shortest")))
     # the shortest history with a hidden trace, for every method: one call of the observed call's method brought to an end in the middle
     # (of a sweep, an iteration, a recursion level), then the observed call
     for rep in range(6 if big else 2):
@@ -428,9 +538,10 @@ def generate(rng, tier):
             kind = "corner" if (method == "Miser" and rep % 2 == 0) else rng.choice(["const", "sepexp", "gauss", "poly"])
             if kind == "corner": d = rng.choice([2, 3])
             rh, ro = rand_region(rng, dh), rand_region(rng, d, plain=(kind == "corner"))
+            fo = rand_fam(rng, d, kind)
             texts = [call_text(method, rng.randrange(2 ** 32), nch, rh, rand_fam(rng, dh, rng.choice(["sepexp", "gauss", "poly"])), throw_at=n),
-                     call_text(method, rng.randrange(2 ** 32), ncall, ro, rand_fam(rng, d, kind))]
-            cs.append(Case("hist 1 " + " ".join(texts), ("hist", method, "same-dim", "with-throwing-call", "shortest")))
+                     call_text(method, rng.randrange(2 ** 32), ncall, ro, fo)]
+            cs.append(Case("hist 1 " + " ".join(texts) + obs_ann(method, ncall, ro, fo), ("hist", method, "same-dim", "with-throwing-call", "shortest")))
     # one box, built once by the caller and handed to several integrations: a history call of every method on the very vector object the observed
     # call (every method) is then given, run to its end or brought to an end in the middle; the observed call also before the history, on the same object
     for rep in range(3 if big else 1):
@@ -441,9 +552,10 @@ def generate(rng, tier):
                     nch, ncall = rng.choice([500, 1000, 2000]), rng.choice([500, 1000, 2000])
                     total = 5 * vegas_layout(nch, d)[3] if hm == "Vegas" else nch
                     n = rng.randint(2, total - 1) if ended else 0
+                    fo = rand_fam(rng, d, rng.choice(["const", "sepexp", "gauss", "poly"]))
                     texts = [call_text(hm, rng.randrange(2 ** 32), nch, region, rand_fam(rng, d, rng.choice(["sepexp", "gauss", "poly"])), throw_at=n, obj=0),
-                             call_text(om, rng.randrange(2 ** 32), ncall, region, rand_fam(rng, d, rng.choice(["const", "sepexp", "gauss", "poly"])), obj=0)]
-                    cs.append(Case("hist 1 " + " ".join(texts), ("hist", om, "same-dim", "shared-region-object") + (("with-throwing-call",) if ended else ())))
+                             call_text(om, rng.randrange(2 ** 32), ncall, region, fo, obj=0)]
+                    cs.append(Case("hist 1 " + " ".join(texts) + obs_ann(om, ncall, region, fo), ("hist", om, "same-dim", "shared-region-object") + (("with-throwing-call",) if ended else ())))
     # integrations under way: the observed (inner) call is made from inside the integrand of another (outer) integration, at every one of its evaluations, on a
     # box of its own or on the very vector object the outer call was given; each of its values is compared with its value in a fresh process.
     # (Vegas inside Vegas is left out: its function-local statics, "allowing restarts", include the loop counters, and the outer call never comes to an end.)
@@ -485,6 +597,13 @@ def generate(rng, tier):
             cs.append(front_case(rng, "front3s", method, [(r1, r2), (-1.0, 1.0), (0.0, 2 * math.pi)], 0 if (big or method != "Vegas") else 6000, ("whole-sphere",)))
             for _ in range(2):
                 cs.append(front_case(rng, "front3s", method, [rand_pair(rng, DOM3S[k]) for k in range(3)], rng.choice([1000, 2000, 4096]), ("sector",)))
+    # the 2-D / 3-D front ends at the corners of the range of widths
+    for rep in range(3 if big else 1):
+        for method in MC:
+            for op, d in (("front2d", 2), ("front3d", 3)):
+                for corner in ("small", "large", "alternating"):
+                    region = rand_region(rng, d, rev=0.1, corner=corner)
+                    cs.append(front_case(rng, op, method, [(region[j], region[j + d]) for j in range(d)], rng.choice([1000, 2000]), ("width-corner", "width-corner-" + corner)))
     # the 2-D / 3-D front ends: anisotropic offset regions, asymmetric integrand
     for _ in range(12 if big else 4):
         for method in MC:
@@ -507,6 +626,7 @@ def generate(rng, tier):
 def parse_mc(line):
     body, _, ann = line.partition(" # ")
     t = body.split()
+    if t[0] == "mcd": t = ["mc"] + t[2 + 2 * int(t[1]):]       # mcd <k> a_1 b_1 ... a_k b_k <call>: what the integrand draws at every evaluation
     method, seed, ncall, d = t[1], int(t[2]), int(t[3]), int(t[4])
     region = [float.fromhex(x) for x in t[5:5 + 2 * d]]
     return method, seed, ncall, d, region, " ".join(t[5 + 2 * d:]), (parse_fam(ann.split()) if ann else None)
@@ -537,11 +657,11 @@ def aniso(region):
 
 def nontrivial(c, io):
     op = c.line.split()[0]
-    if op == "mc": return aniso(parse_mc(c.line)[4]) and not io.startswith("EXIT")
+    if op in ("mc", "mcd"): return aniso(parse_mc(c.line)[4]) and not io.startswith("EXIT")
     if op in ("front2d", "front3d", "front3s"): return aniso(parse_front(c.line)[4]) and not io.startswith("EXIT")
     if op == "hist":
         t = io.split()
-        return (int(c.line.split()[1]) >= 2 and "mixed-dims" in c.tags) or (len(t) == 5 and t[3].isdigit() and int(t[3]) >= 1)
+        return (int(c.line.split()[1]) >= 2 and "mixed-dims" in c.tags) or (len(t) >= 6 and t[3].isdigit() and int(t[3]) >= 1) or "with-draws" in c.tags
     if op == "nested":
         t = io.split()
         return len(t) == 6 and t[2].isdigit() and int(t[2]) >= 2
@@ -549,7 +669,7 @@ def nontrivial(c, io):
 
 
 # ---------------------------------------------------------------- S4
-def check_call(op, method, ncall, d, region, fex, fam, v, out, ended_early=False):
+def check_call(op, method, ncall, d, region, fex, fam, v, out, ended_early=False, six_sigma=True):
     val, neval = v[0], v[1]; mm = v[3:]
     # evaluation points inside the hyper-rectangle
     if op == "front3s":
@@ -579,7 +699,7 @@ def check_call(op, method, ncall, d, region, fex, fam, v, out, ended_early=False
         out.append((f"{op}:budget", f"{method} returned {val!r} without a single evaluation of the integrand (budget {ncall})"))
     if fam is None: return
     txt = fam.text(region)
-    if op != "mc": txt = txt.replace("v 0", "x").replace("v 1", "y").replace("v 2", "z")
+    if op.startswith("front"): txt = txt.replace("v 0", "x").replace("v 1", "y").replace("v 2", "z")
     if txt != fex: return
     ex, sig = fam.exact_sigma(region, ncall)
     if fam.kind == "const":
@@ -587,12 +707,15 @@ def check_call(op, method, ncall, d, region, fex, fam, v, out, ended_early=False
         if not (abs(val - ex) <= slack):
             # Vegas weights its iterations by 1/variance with the absolute floor TINY = 1e-30 for a vanishing variance estimate; the first
             # iteration (uniform grid, exact on a constant) dominates only while (c V / calls)^2 is far above that floor (known finding K-C14-1)
-            region_tag = ":vegas-tiny-scale" if (method == "Vegas" and abs(ex) / max(neval, ncall, 1) < 1e-6) else ""
+            # (what K-C14-1 describes is a wrong weighting of iterations each of which is an estimate of volume*constant on a refined grid: the result stays
+            # within the sampling noise of such an iteration, far below 1e-3 relative; anything coarser, e.g. a result of 0, is not that finding)
+            region_tag = ":vegas-tiny-scale" if (method == "Vegas" and abs(ex) / max(neval, ncall, 1) < 1e-6 and abs(val - ex) <= 1e-3 * abs(ex)) else ""
             out.append((f"{op}:constant-exact{region_tag}", f"{method}: constant integrand, result {val!r}, volume*constant = {ex!r} (error {abs(val-ex):.3g} > {slack:.3g})"))
     elif fam.kind == "corner":
-        if not math.isfinite(val) or val < 0.0 or val > abs(ex) * 1e6 + 1e-300:
+        # (non-negative integrand: the sign of the result is that of the oriented volume)
+        if not math.isfinite(val) or val * ex < 0.0 or abs(val) > abs(ex) * 1e6 + 1e-300:
             out.append((f"{op}:corner-finite", f"{method}: integrand supported in a corner, result {val!r} (exact {ex!r})"))
-    else:
+    elif six_sigma:
         if not (abs(val - ex) <= 6 * sig + 1e-12 * abs(ex)):
             out.append((f"{op}:six-sigma", f"{method}: result {val!r}, exact {ex!r}: off by {abs(val-ex)/sig:.2f} standard errors of plain Monte Carlo with {ncall} points"))
 
@@ -605,7 +728,20 @@ def predicates(c, io):
         v = parse_vals(io)
         if any(not (0.0 <= x < 1.0) for x in v[1:]): out.append(("stream:range", "Sample_Uniform left [0,1)"))
         return out
-    if op == "mc":
+    if op == "draws":
+        t = c.line.split(); k = int(t[2]); lim = [float.fromhex(x) for x in t[3:3 + 2 * k]]
+        v = parse_vals(io)
+        if len(v) != k + 1: return [("draws:output", f"malformed harness output {io[:80]!r}")]
+        for i in range(k):
+            a, b = lim[2 * i], lim[2 * i + 1]
+            # u * (b - a) + a with u in [0,1): at least a, and at most b (the rounding may reach b)
+            if not (a <= v[1 + i] <= b):
+                out.append(("draws:range", f"draw {i + 1} of {k} from one generator: Sample_Uniform(gen, {a!r}, {b!r}) returned {v[1 + i]!r}"
+                            + (f" (the draw before had the limits {lim[2 * i - 2]!r}, {lim[2 * i - 1]!r})" if i else "")))
+                break
+        return out
+    if op in ("mc", "mcd"):
+        op = "mc"
         method, seed, ncall, d, region, fex, fam = parse_mc(c.line)
         method, n = split_throw(method)
         if method in ("dflt", "dflt2"):        # arguments left out: method = "Vegas", ncalls = 10000
@@ -635,10 +771,13 @@ def predicates(c, io):
     elif op == "hist":
         if io.startswith("EXIT"): return [("hist:exit", "a valid sequence of integrations terminated the process")]
         t = io.split()
-        if len(t) != 5: return [("hist:output", f"malformed harness output {io[:80]!r}")]
-        fresh, a, b, nab, nmod = t
-        nh = int(c.line.split()[1])
-        what = f"{nh} other integrations" + (f" ({nab} of them brought to an end by an exception from the integrand)" if nab != "0" else "")
+        if len(t) < 8: return [("hist:output", f"malformed harness output {io[:80]!r}")]
+        fresh, a, b, nab, nmod, nout = t[:6]
+        body, _, ann = c.line.partition(" # obs ")
+        els = body.split()
+        nh = int(els[1]); ndraws = sum(1 for w in els if w in ("su", "sg", "rs"))
+        what = f"{nh - ndraws} other integrations" + (f" ({nab} of them brought to an end by an exception from the integrand)" if nab != "0" else "")
+        if ndraws: what += f" and {ndraws} uses of the sampling facility (Sample_Uniform with limits, Sample_Gauss, Rejection_Sampling) by the caller"
         if "shared-region-object" in c.tags or "@" in c.line: what += ", some of them over the same region vector object of the caller"
         if a != b:
             out.append(("hist:history-dependence", f"same call, same seed: {a} before but {b} after {what}"))
@@ -646,6 +785,17 @@ def predicates(c, io):
             out.append(("hist:history-dependence:fresh-process", f"same call, same seed: {fresh} in a fresh process but {b} in this process after {what} (and {a} before them, after the earlier cases of this run)"))
         if nmod != "0":
             out.append(("hist:caller-region-modified", f"{nmod} of the calls changed the limits in the region vector of their caller (during the call or for good)"))
+        if nout != "0":
+            out.append(("hist:draws-range", f"{nout} of the caller's draws Sample_Uniform(gen, a, b) in the history were outside [a, b]"))
+        if ann:
+            # the clauses of a single call, on the observed call as made after the history: points inside, constants exact, six standard errors
+            # (the latter for budgets of the quantified range, >= 1000)
+            h, _, fa = ann.partition(" ; ")
+            ht = h.split(); method, ncall, d = ht[0], int(ht[1]), int(ht[2])
+            region = [float.fromhex(x) for x in ht[3:3 + 2 * d]]; fam = parse_fam(fa.split())
+            v = parse_vals(" ".join([b] + t[6:]))
+            if isinstance(v[0], float) and len(v) == 3 + 2 * d:
+                check_call("hist", method, ncall, d, region, fam.text(region), fam, v, out, six_sigma=(ncall >= 1000))
     elif op == "nested":
         if io.startswith("EXIT"): return [("nested:exit", "a valid integration started from the integrand of another one terminated the process")]
         t = io.split()
